@@ -25,6 +25,24 @@ In8 = ("In", [("p", 0, ("u", 8)), ("q", 1, ("i", 16))])
 In5 = ("In", [("p", 0, ("u", 5)), ("q", 1, ("i", 11))])
 
 
+def _stopped(eng, pc, ob, out, mk, res, what):
+    """The interpreter gave up on a path (step budget: a loop that does not end; an access outside every allocation).  That
+    is a crash / hang candidate, not a verdict: a witness of the path runs natively (both compilers, real libstdc++) and a
+    difference, crash or time-out there is the violation; if the native run is fine the path stays inconclusive."""
+    msg = f"{type(out).__name__}: {str(out)[:200]}"
+    res["obligations"].append(ob)
+    r, mdl = eng.check(pc=list(pc))
+    if r == "sat":
+        payload = mk(mdl)
+        payload.update(obligation=ob, what=f"{what}: interpreter stopped ({msg})")
+        path = write_replay("C13", payload)
+        okr, text = run_replay(path, timeout=600)
+        if okr:
+            res["violations"].append({"replay": path, "ob": ob, "what": f"{what} (interpreter: {msg}) :: {text[-300:]}"})
+            return
+    res["inconclusive"].append(f"{ob}: interpreter stopped: {msg}")
+
+
 def c13_family(tier, sd=0):
     E = {"E255": mk_enum("E255", 255), "E5": mk_enum("E5", 5), "E1": mk_enum("E1", 1), "E65535": mk_enum("E65535", 65535)}
     fam = []
@@ -159,7 +177,7 @@ def c13_case(args):
         binp = m.alloc(len(binv) + 1)
         for i, b in enumerate(binv):
             m.mem[binp + i] = b
-        m.step_budget = 10 ** 12
+        m.step_budget = 8_000_000      # ~100x the largest legitimate run: a loop that does not end is an EngineLimit
         try:
             sp = llsym.run(m, "@dyn_load", [binp, len(binv)])
         except CxxThrow as e:
@@ -237,7 +255,7 @@ def c13_case(args):
                 for pi, (kind, out, pc) in enumerate(eng.explore(enc_body, assume)):
                     ob = f"{desc}|inst{ii}|encode|path{pi}"
                     if kind == "exc":
-                        res["inconclusive"].append(f"{ob}: interpreter stopped: {type(out).__name__}: {str(out)[:200]}")
+                        _stopped(eng, pc, ob, out, mk_enc, res, what=f"EncodeJson on {desc}")
                         continue
                     a, ra, b, rb = out
                     reached.add("encode")
@@ -275,7 +293,7 @@ def c13_case(args):
                 for pi, (kind, out, pc) in enumerate(eng.explore(dec_body, assume)):
                     ob = f"{desc}|inst{ii}|decode|path{pi}"
                     if kind == "exc":
-                        res["inconclusive"].append(f"{ob}: interpreter stopped: {type(out).__name__}: {str(out)[:200]}")
+                        _stopped(eng, pc, ob, out, mk_dec, res, what=f"DecodeJson of canonical bytes on {desc}")
                         continue
                     a, ra, b, rb = out
                     reached.add("decode")
